@@ -575,4 +575,43 @@ def encodeReply (h : Hdr) (labels : List (List Nat)) (t1 t2 c1 c2 : Nat) (tail :
 def legalLabels (ls : List (List Nat)) : Prop :=
   (∀ l ∈ ls, 1 ≤ l.length ∧ l.length ≤ 63) ∧ (encodeName ls).length ≤ 255
 
+/-! ### The health-check domain template (fifth audit)
+
+A template is a list of labels, a label a list of literal pieces and `${RANDOM}` placeholders; every
+placeholder of a round is replaced by the same string `r` (1–16 hexadecimal digits).  The start-up
+check used to ask for a non-empty template only; as fixed it asks that the name made with the
+longest random part is a legal name. -/
+
+inductive Seg where
+  | lit (bytes : List Nat)
+  | rnd
+deriving Repr, DecidableEq
+
+abbrev Tmpl := List (List Seg)
+
+def expandLabel (r : List Nat) : List Seg → List Nat
+  | [] => []
+  | .lit b :: t => b ++ expandLabel r t
+  | .rnd :: t => r ++ expandLabel r t
+
+def expandTmpl (r : List Nat) (t : Tmpl) : List (List Nat) := t.map (expandLabel r)
+
+/-- `strings.Repeat("f", 16)`. -/
+def maxRand : List Nat := List.replicate 16 102
+
+def legalLabelsB (ls : List (List Nat)) : Bool :=
+  ls.all (fun l => decide (1 ≤ l.length) && decide (l.length ≤ 63)) && decide ((encodeName ls).length ≤ 255)
+
+/-- `upstreamHealthcheckConfig.validate` before the fix: `domain_template` is not empty. -/
+def tmplAcceptedOld (t : Tmpl) : Bool := !t.isEmpty
+
+/-- As fixed (`forward.ValidateHealthcheckDomainTmpl`): the name with the longest random part packs
+and is at most 255 octets long. -/
+def tmplAccepted (t : Tmpl) : Bool := legalLabelsB (expandTmpl maxRand t)
+
+/-- A probe can only succeed if a request can be made from the template: `Pack` fails otherwise and
+`healthcheckUpstream` records a failed check although nothing was sent. -/
+def probesWithTmpl (t : Tmpl) (r : List Nat) (pr : Nat → Probe) : Nat → Probe :=
+  fun u => { pr u with ok := (pr u).ok && legalLabelsB (expandTmpl r t) }
+
 end Agd.Forward
